@@ -1304,26 +1304,37 @@ class TexReader:
 
     def term(self):
         factors = []
+        explicit = True  # an explicit multiplication sign (or the start of the term) precedes the next factor
         while True:
             tk = self.peek()
             if tk == "|" and self.match_name(self._sym)[0] is not None:
                 factors.append(self.factor())  # a display name such as |Z|
+                explicit = False
                 continue
             if tk in _TEX_STOP or tk == "|":
                 break
             if tk in (r"\cdot", r"\times"):
                 self.next()
+                explicit = True
                 continue
             if tk == "/" and factors:  # inline quotient a/b (SymPy writes rational exponents that way in one place)
                 self.next()
                 factors[-1] = _div(factors[-1], self.factor())
+                explicit = False
                 continue
             op = self.operator()
             if op is not None:
                 operand = self.term()
                 factors.append(op.apply(operand))
                 break
+            # two NUMERALS separated by nothing but a space ("5 10^{x}", "x 2 1000") do not read as a product -- the digits run together;
+            # a rendering has to put \cdot / \times between them
+            self.skip()
+            prev = self.t[self.i - 1] if self.i > 0 else ""
+            if factors and not explicit and isinstance(tk, str) and tk[:1].isdigit() and isinstance(prev, str) and prev[-1:].isdigit():
+                raise Malformed(f"the numerals {prev!r} and {tk!r} are juxtaposed without a multiplication sign")
             factors.append(self.factor())
+            explicit = False
         if not factors:
             raise self.err("empty term")
         acc = factors[0]
@@ -2212,6 +2223,22 @@ HAND_SHAPES = [
     ("add", ("mul", _n(2), _A), ("mul", _n(3), _B)),
     ("mul", _A, ("mul", _B, _C)),
     ("eq", _B, ("add", _A, _C)),
+    # operator nodes as the base / exponent / operand of a power, quotient, product or difference: the bracketing of a
+    # derivative or an integral inside an arithmetic node (the catalogue forms only have them at the top of a side).
+    # No product with a derivative on the left and no nested derivative: how far a d/dx prefix reaches into a product is a
+    # reading convention, not a bracketing obligation, and nested unevaluated derivatives print a count of "1 + 1".
+    ("pow", ("ddx", ("pow", _A, _n(3))), _n(2)),
+    ("pow", ("ddx", ("mul", _A, _B)), _C),
+    ("pow", ("int01", ("pow", _A, _n(2))), _n(2)),
+    ("pow", ("int01", ("add", _A, _B)), _n(-1, 2)),
+    ("pow", _n(2), ("ddx", ("pow", _A, _n(2)))),
+    ("div", _n(1), ("ddx", ("pow", _A, _n(2)))),
+    ("div", _B, ("int01", ("add", _A, _B))),
+    ("mul", _B, ("int01", ("add", _A, _B))),
+    _neg(("ddx", ("add", _A, _B))),
+    ("sub", _B, ("int01", ("sub", _A, _B))),
+    ("sub", _B, ("ddx", ("sub", _A, _B))),
+    ("sqrt", ("ddx", ("pow", _A, _n(2)))),
 ]
 
 
@@ -2281,6 +2308,10 @@ def _build(spec, syms, ev):
         return sp.log(a)
     if h == "sin":
         return sp.sin(a)
+    if h == "ddx":  # operator nodes (hand shapes only): d/dx and a definite integral over the first symbol
+        return sp.Derivative(a, syms[0])
+    if h == "int01":
+        return sp.Integral(a, (syms[0], 0, 1))
     b = _build(spec[2], syms, ev)
     if h == "eq":
         return sp.Eq(a, b, evaluate=False)
@@ -2665,7 +2696,10 @@ def run_property(report, pid: str, kind: str):
     for gname, what in (("canonical", G_CANON.doc), ("source-form", G_SRC.doc),
                         ("hand", "hand-written source-form shapes built with evaluation disabled: products with 2 and 3 "
                                  "negative numeric factors, nested negative products, a - (-b), -(-a), (-a)^2, (-2)^x, "
-                                 "1/(-a), -a/(-b), sums with negative leading terms, quotient/power nestings")):
+                                 "1/(-a), -a/(-b), sums with negative leading terms, quotient/power nestings, and a derivative or a "
+                                 "definite integral as the base, exponent or operand of a power, root, quotient or "
+                                 "difference (operator nodes lie beyond the stated expression space; the printers' "
+                                 "bracketing contract covers them)")):
         rs = [r for r in tree_results if r["group"] == gname]
         cnt = sum(r["count"] for r in rs)
         # failing trees are reduced to locally minimal failing shapes and reported once per shape
